@@ -5,6 +5,7 @@ from common import Driver, Report, ser_result, ser_diagram, ser_ty, wf_failure, 
     err_class, tokname
 from core import Family, Gen, tok_expr, tok_ty, tok_box, spec_box, ty_l, ty_r
 from sums import SumGen, run_sum, sum_class, tok_sexpr, ser_sum_result
+from c04img import run_image_stream
 
 PROP = "C04"
 TARGET = ["p", "q", "r"]
@@ -114,10 +115,18 @@ def run(tier, seed, replay=None):
                 "boxes deep, given as dict or callable; ~8% ill-typed box maps; slices with arbitrary "
                 "Python bounds (omitted, negative, beyond the ends, start > stop); formal sums of 0-4 "
                 "terms; non-trivial = diagram of >= 2 boxes and at least one object image of "
-                "length != 1")
+                "length != 1; image stream: box images that are formal sums of 0-3 terms, bubbles, bare "
+                "boxes (incl. Swap/Cup/Cap for a generic box), identities, diagrams with a Sum box; source "
+                "diagrams with Sum / Bubble boxes; non-trivial there = >= 2 boxes and a sum image used")
     rep.partial = ["F_dagger, F_sum_dagger: proved under the box-level dagger law only (false as == for "
                    "Swap(x, y) with two multi-wire images: finding F6, decided witness F6_swap_witness)",
-                   "images of bubbles (cat.py:836-838) are not modelled"]
+                   "images of bubbles (cat.py:836-838) are not modelled",
+                   "sum images: F_then_sumimg, F_tensor_sumimg, F_typing_sumimg, F_id_sumimg, F_box_sumimg proved; "
+                   "the dagger law is refuted for >= 2 boxes with >= 2-term images (F_dagger_sumimg_witness, "
+                   "finding F4c04a); the image of a formal sum whose terms have sum images is nested "
+                   "(finding F4c04b) and not modelled",
+                   "bubble images, images containing a Sum box, source Sum / Bubble boxes: oracle only "
+                   "(structure compared with an independent reference, laws as ==), no model"]
     rep.lean = lean_obligations(PROP, thorough=(tier == "thorough"))
     n_cases = 150 if tier == "quick" else 6000
     rng = random.Random(seed)
@@ -269,6 +278,11 @@ def run(tier, seed, replay=None):
             for bx in d.boxes:
                 if type(bx).__name__ == "Swap":
                     law("swap", lambda: F(bx), lambda: fam.m.Diagram.swap(F(bx.dom[:1]), F(bx.dom[1:])))
+        # ---- box maps whose images are not plain diagrams (formal sums, bubbles, bare special boxes,
+        #      identities, diagrams containing a Sum box), source diagrams with Sum / Bubble boxes
+        run_image_stream(rep, drv, fams, random.Random(seed * 7919 + 404),
+                         80 if tier == "quick" else 400,
+                         max_terms=12 if tier == "quick" else 24)
     finally:
         drv.close()
     return rep.finish()
